@@ -282,7 +282,7 @@ func (rc *refCache) get(c *Corpus, op Op) (Res, error) {
 	}
 	cmd := exec.Command(bin, "ref")
 	cmd.Stdin = strings.NewReader(string(b))
-	cmd.Env = append(os.Environ(), "GORACE=halt_on_error=0")
+	cmd.Env = append(os.Environ(), "GORACE=halt_on_error=0", "TZ=UTC")
 	var stderr strings.Builder
 	cmd.Stderr = &stderr
 	out, err := cmd.Output()
